@@ -23,10 +23,13 @@ API (namespace `OsmoVerif.Trxd`)
   RxMsg.parseMsg b            `RxMsg().parse_msg(b)`
   TxMsg.trans / RxMsg.trans ver   `trans(ver)`: Tx -> Rx (ubit2sbit, NOPE when no burst) and Rx -> Tx (sbit2ubit)
   sendMsg (gen result)        `DATAInterface.send_msg`: datagrams handed to the socket, `ValueError` swallowed
-  helpers                     bytearrayAppend, packBE32u, packBE16s, unpackBE32u, unpackBE16s, index, slice,
+  helpers                     bytearrayAppend, packBE32u, packBE16s, unpackBE32u, unpackBE16s, index, slice, need,
                               translate, sbyte, ubyte2s, sbit2usbit, usbit2sbit, sbit2ubit, ubit2sbit,
-                              txHdrLen, rxHdrLen, parseCommon, genCommon, RxMsg.appendMts, RxMsg.parseMts,
-                              TxMsg.parseBurst, RxMsg.parseHdr, RxMsg.parseBurst, RxMsg.parseBurstV0, need, appendLegacy
+                              txHdrLen, rxHdrLen (`HDR_LEN`), validateCommon (`Msg.validate`), genCommon, parseCommon,
+                              appendLegacy; TxMsg.validateOwn / appendHdrTo / appendBurstTo / parseBurst;
+                              RxMsg.validateMeas / validateMts / validateCi / validateBurst(V0|V1) / appendMts /
+                              appendHdrTo / appendBurstTo / parseMts / parseHdr / guessMod / parseBurstV0 / parseBurst
+  instance                    DecidableEq (Except Exc α), so outcomes can be compared by `decide`
 
 Python semantics used (all exact for unbounded ints):
   `(ver << 4) | (tn & 0x07)`  = `16*ver + tn mod 8` (floor mod; the two operands have no common bit)
